@@ -6,7 +6,11 @@ open Proto Stat
       ts   <ns> <ll>                              -> TS of WilksTestStatistic
       tst  <ns> <ll> <a> <b>                      -> TS of the zero-ns Taylor variant | notfinite
       ll   <N> <nSel> <ns> <Xs>                   -> logΛ (stable regime)
-      lh   <N> <nSel> <Xs> <ops>                  -> history on one LLH-ratio object (e<ns>, n, g<ns>, t)
+      lh   <N> <nSel> <Xs> <ops>                  -> history on one LLH-ratio object (e<ns>, n, g<ns>, t), stable formulas
+      lhc  <opa> <nSel> <nPure> <Xs> <ops>        -> the same with evaluate as coded (both regimes)
+      llc / g1c <opa> <N> <nSel> <ns> <Xs>        -> log_lambda / grads[ns] as coded
+      mh   <opa> <ds> <fs> <ops>                  -> history on one multi-dataset object (e, n, g, l, a, t)
+      ph   <opa> <ns0> <ds> <fs> <ops>            -> history on one ns-profile object (n, e, l, g<pidx>_<ns>, t)
       g1   <N> <nSel> <ns> <Xs>                   -> d logΛ / d ns   (stable regime)
       g2   <N> <nSel> <ns> <gs>                   -> calculate_ns_grad2 (single dataset)
       g2m  <g2s> <fs>                             -> calculate_ns_grad2 (multi dataset)
@@ -29,6 +33,69 @@ def fPv (r : Except PvErr (Float × Float)) (cnt : Except PvErr (Nat × Nat)) : 
 
 def pNames (s : String) : List String := pList id s
 
+/-- datasets `nSel:nPure:x1/x2/...` separated by `;` (`-` for no selected event) -/
+def pDs (s : String) : List (DsIn Float) :=
+  (s.splitOn ";").map fun d =>
+    match d.splitOn ":" with
+    | [a, b, xs] => { nSel := pN a, nPure := pN b, Xs := if xs == "-" then [] else (xs.splitOn "/").map pF }
+    | _ => { nSel := 0, nPure := 0, Xs := [] }
+
+def fMErr (e : MultiErr) : String :=
+  match e with
+  | .noWeights => "W"
+  | .shape => "S"
+  | .runtime => "R"
+  | .valueError => "V"
+  | .noLogL0 => "N"
+
+/-- history on one MultiDatasetTCLLHRatio object: e<ns> evaluate, n new trial, g<ns> calculate_ns_grad2,
+l<ns> / a<ns> value / ns-gradient of evaluate, t Taylor TS at ns = 0 -/
+def multiHist (opa : Float) (ds : List (DsIn Float)) (fs : List Float) (ops : List String) : List String :=
+  let step (acc : MultiSt Float × List String) (op : String) : MultiSt Float × List String :=
+    let (st, out) := acc
+    let arg := (op.drop 1).toString
+    if op.startsWith "e" then (st.evaluate opa (pF arg) fs ds, out)
+    else if op.startsWith "n" then (st.newTrial, out)
+    else if op.startsWith "l" then (st, out ++ [fF (multiLlr opa (pF arg) fs ds)])
+    else if op.startsWith "a" then (st, out ++ [fF (multiNsGrad opa (pF arg) fs ds)])
+    else if op.startsWith "g" then
+      match st.grad2 (pF arg) ds with
+      | .ok x => (st, out ++ [fF x])
+      | .error e => (st, out ++ [fMErr e])
+    else
+      match tsTaylorOnMulti st opa fs ds with
+      | (st', .ok (some x)) => (st', out ++ [fF x])
+      | (st', .ok none) => (st', out ++ ["notfinite"])
+      | (st', .error e) => (st', out ++ [fMErr e])
+  (ops.foldl step (MultiSt.fresh ds.length, [])).2
+
+/-- history on one NsProfileMultiDatasetTCLLHRatio object: n new trial (evaluates at ns0), e<ns>,
+l<ns> profile log-lambda, g<pidx>_<ns>, t Taylor TS -/
+def profHist (opa ns0 : Float) (ds : List (DsIn Float)) (fs : List Float) (ops : List String) : List String :=
+  let step (acc : ProfSt Float × List String) (op : String) : ProfSt Float × List String :=
+    let (st, out) := acc
+    let arg := (op.drop 1).toString
+    if op.startsWith "e" then (st.evaluate opa (pF arg) fs ds, out)
+    else if op.startsWith "n" then (st.newTrial opa ns0 fs ds, out)
+    else if op.startsWith "l" then
+      match st.llr opa (pF arg) fs ds with
+      | some x => (st, out ++ [fF x])
+      | none => (st, out ++ ["N"])
+    else if op.startsWith "a" then (st, out ++ [fF (multiNsGrad opa (pF arg) fs ds)])
+    else if op.startsWith "g" then
+      match arg.splitOn "_" with
+      | [pidx, ns] =>
+        match st.grad2 (pN pidx) (pF ns) ds with
+        | .ok x => (st, out ++ [fF x])
+        | .error e => (st, out ++ [fMErr e])
+      | _ => (st, out ++ ["bad"])
+    else
+      match tsTaylorOnProf st opa fs ds with
+      | (st', .ok (some x)) => (st', out ++ [fF x])
+      | (st', .ok none) => (st', out ++ ["notfinite"])
+      | (st', .error e) => (st', out ++ [fMErr e])
+  (ops.foldl step (⟨MultiSt.fresh ds.length, none⟩, [])).2
+
 def answer (line : String) : String :=
   match tokens line with
   | ["ts", ns, ll] => fF (ts (pF ns) (pF ll))
@@ -36,6 +103,31 @@ def answer (line : String) : String :=
       | some x => fF x
       | none => "notfinite"
   | ["ll", n, nsel, ns, xs] => fF (llrStable (pN n) (pN nsel) (pF ns) (pList pF xs))
+  | ["llc", opa, n, nsel, ns, xs] => fF (llrCode (pF opa) (pN n) (pN nsel) (pF ns) (pList pF xs))
+  | ["g1c", opa, n, nsel, ns, xs] => fF (nsGradCode (pF opa) (pN n) (pN nsel) (pF ns) (pList pF xs))
+  | ["lhc", opa, nsel, npure, xs, ops] =>
+      -- history on one single-dataset LLH-ratio object, evaluate as coded (both regimes)
+      let o := pF opa
+      let nSel := pN nsel
+      let nPure := pN npure
+      let Xs := pList pF xs
+      let step (acc : LlhSt Float × List String) (op : String) : LlhSt Float × List String :=
+        let (st, out) := acc
+        let arg := (op.drop 1).toString
+        if op.startsWith "e" then (st.evaluateCode o (pF arg) Xs, out)
+        else if op.startsWith "n" then (LlhSt.fresh, out)
+        else if op.startsWith "g" then
+          match st.grad2Code nSel nPure (pF arg) with
+          | .ok x => (st, out ++ [fF x])
+          | .error _ => (st, out ++ ["R"])
+        else
+          match tsTaylorOnCode st o nSel nPure Xs with
+          | (st', .ok (some x)) => (st', out ++ [fF x])
+          | (st', .ok none) => (st', out ++ ["notfinite"])
+          | (st', .error _) => (st', out ++ ["R"])
+      fListD id ((pList id ops).foldl step (LlhSt.fresh, [])).2
+  | ["mh", opa, dss, fss, ops] => fListD id (multiHist (pF opa) (pDs dss) (pList pF fss) (pList id ops))
+  | ["ph", opa, ns0, dss, fss, ops] => fListD id (profHist (pF opa) (pF ns0) (pDs dss) (pList pF fss) (pList id ops))
   | ["lh", n, nsel, xs, ops] =>
       -- history on one LLH-ratio object: e<ns> evaluate, n new trial, g<ns> calculate_ns_grad2, t Taylor TS at ns = 0
       let N := pN n
